@@ -127,6 +127,10 @@ func (t *tctx) expr(e ast.Expr) string {
 		}
 		return t.expr(x.X) + "." + x.Sel.Name
 	case *ast.IndexExpr:
+		// strings.SplitN(s, sep, 2)[0]: the part of s before the first sep
+		if c, ok := x.X.(*ast.CallExpr); ok && src(c.Fun) == "strings.SplitN" && len(c.Args) == 3 && src(c.Args[2]) == "2" && src(x.Index) == "0" {
+			return "(Go.beforeSep " + t.expr(c.Args[0]) + " " + t.expr(c.Args[1]) + ")"
+		}
 		if tbl, ok := t.tables[src(x.X)]; ok {
 			return "(" + tbl + ".contains " + t.expr(x.Index) + ")"
 		}
@@ -855,6 +859,22 @@ func genFuncs() string {
 			})
 			bound := strings.TrimPrefix(src(fl.Cond), "i < ")
 			fmt.Fprintf(&sb, "/-- %s writeBlobParts: the error channel has one slot per part writer (capacity %q, writers %q) -/\ndef store_partErrsSlotPerWriter : Bool := %v\n\n", rel, capExpr, bound, capExpr != "" && capExpr == bound)
+		}
+
+		// blob.read fetches the parts in the order in which the blob lists them (the order of writing, i.e. index
+		// order): the two loops range over bp.Parts and over the fetched parts themselves, not over a re-ordered copy
+		{
+			rd := mustFunc(f, rel, "blob", "read")
+			var ranges []string
+			ast.Inspect(rd, func(n ast.Node) bool {
+				if r, ok := n.(*ast.RangeStmt); ok {
+					ranges = append(ranges, src(r.X))
+				}
+				return true
+			})
+			reorders := strings.Contains(src(rd), "sort.") || strings.Contains(src(rd), "slices.")
+			okOrder := len(ranges) == 2 && ranges[0] == "bp.Parts" && ranges[1] == "parts" && !reorders
+			fmt.Fprintf(&sb, "/-- %s blob.read: ranges over %v; no re-ordering call -/\ndef store_readKeepsStoredPartOrder : Bool := %v\n\n", rel, ranges, okOrder)
 		}
 
 		nb := mustFunc(f, rel, "", "newBlob")
